@@ -43,7 +43,11 @@ static void range_mask(uint8_t* start, size_t size, mi_commit_mask_t* m) {
 }
 bool _mi_os_commit(void* addr, size_t size, bool* is_zero) {
   n_commit++; if (is_zero) *is_zero = false;
+#ifdef COMMIT_FAIL_AT          /* concrete failure schedule (keeps returned pointers concrete): the n-th commit is refused, 0 = none */
+  if (n_commit == COMMIT_FAIL_AT) { commit_refused = true; return false; }
+#else
   if (nd_bool()) { commit_refused = true; return false; }
+#endif
   mi_commit_mask_t m; range_mask((uint8_t*)addr, size, &m); mi_commit_mask_set(&os_committed, &m);
   return true;
 }
@@ -235,6 +239,171 @@ void h_segment_alloc_commit(void) {
   CHECK(s == NULL && n_os_alloc2 == 1 && os_required == required, "the request reaches the OS layer once");
   if (required > 0) { CHECK(os_commit_flag, "C13: huge segments are always allocated committed (they cannot be committed on demand)"); WITNESS("huge"); }
   else WITNESS("normal");
+}
+#endif
+
+#ifdef HARNESS_h_segment_alloc_full
+/* C01/C03/C13: mi_segment_alloc / mi_segment_huge_page_alloc run completely on a header-only segment object handed out by a stub
+   of the arena layer (memory fresh from the OS = zero, or recycled arena memory = arbitrary bytes, ZEROMEM).  REQ (bytes, 0 =
+   normal segment) and ALIGN (0 or MI_SEGMENT_SIZE) are concrete so that slice positions stay concrete; options, commit
+   state of the memory and OS answers are symbolic.  (For alignments above the segment size CBMC's object base is "too well
+   aligned": that geometry is decided on integer addresses by huge_geometry.) */
+static mi_segments_tld_t STLD; static mi_stats_t SSTATS; static mi_segment_t GARB;
+static int n_arena_req, n_arena_free2; static size_t rq_size; static bool mem_committed, mem_zero;
+static size_t reset_lo, reset_hi; static int n_reset2;
+void* _mi_arena_alloc_aligned(size_t size, size_t alignment, size_t align_offset, bool commit, bool allow_large, mi_arena_id_t req_arena_id, mi_memid_t* memid) {
+  n_arena_req++; rq_size = size;
+  if (ARENA_FAIL) return NULL;            /* concrete (driver enumerates) so that the segment pointer stays concrete */
+  *memid = _mi_memid_create(MI_MEM_OS); if (COMMIT_FAIL_AT) ASSUME(!commit);       /* refusal variant: lazily committed memory (options such that no eager commit is requested) */
+  memid->initially_committed = mem_committed = (commit || (COMMIT_FAIL_AT ? false : nd_bool())); memid->initially_zero = mem_zero; memid->is_pinned = nd_bool();
+  if (mem_committed) mi_commit_mask_create_full(&os_committed); else mi_commit_mask_create_empty(&os_committed);
+  return &S.seg; }
+void _mi_arena_free(void* p, size_t size, size_t committed, mi_memid_t memid) { CHECK(p == (void*)&S.seg && size == rq_size, "the segment is given back with the size it was requested with"); n_arena_free2++; }
+bool _mi_os_has_overcommit(void) { return nd_bool(); }
+size_t _mi_current_thread_count(void) { return nd_size() % 4; }
+void _mi_segment_map_allocated_at(const mi_segment_t* segment) { }
+void _mi_segment_map_freed_at(const mi_segment_t* segment) { }
+bool _mi_os_protect(void* addr, size_t size) { return true; }
+bool _mi_os_unprotect(void* addr, size_t size) { return true; }
+bool _mi_os_reset(void* addr, size_t size) { n_reset2++; size_t o = (size_t)((uint8_t*)addr - (uint8_t*)&S); CHECK(size == 0 || (o >= reset_lo && o + size <= reset_hi), "C13: the prefix reset of a huge page stays between the free-list word and the aligned block"); return true; }
+void _mi_arena_segment_mark_abandoned(mi_segment_t* segment) { }
+mi_threadid_t _mi_thread_id(void) mi_attr_noexcept { return 0x4242; }
+mi_segment_t* stub_ptr_segment2(const void* p) { return (p == NULL ? NULL : &S.seg); }
+/* mi_segment_alloc zeroes [offsetof(next), slices[segment_slices+1]) of recycled memory: checked to cover every slice entry that can be used,
+   then carried out field-wise (entries beyond the zeroed range keep their arbitrary contents) */
+static size_t zero_entries;
+void stub_memzero_seg(void* dst, size_t n) {
+  CHECK(dst == (void*)((uint8_t*)&S.seg + offsetof(mi_segment_t, next)), "header zeroing starts at the first field that is not set by mi_segment_os_alloc");
+  size_t prefix = offsetof(mi_segment_t, slices) - offsetof(mi_segment_t, next);
+  CHECK(n >= prefix && (n - prefix) % sizeof(mi_slice_t) == 0, "whole slice entries");
+  zero_entries = (n - prefix) / sizeof(mi_slice_t);
+  mi_segment_t keep = S.seg; static mi_segment_t ZERO;
+  S.seg = ZERO;
+  S.seg.memid = keep.memid; S.seg.allow_decommit = keep.allow_decommit; S.seg.allow_purge = keep.allow_purge; S.seg.segment_size = keep.segment_size; S.seg.subproc = keep.subproc;
+  S.seg.purge_expire = keep.purge_expire; S.seg.purge_mask = keep.purge_mask; S.seg.commit_mask = keep.commit_mask;
+  for (size_t i = 0; i <= MI_SLICES_PER_SEGMENT; i++) if (i >= zero_entries) S.seg.slices[i] = GARB.slices[i];     /* loop stub_memzero_seg.0 */
+}
+static size_t queue_len(mi_span_queue_t* sq, mi_slice_t** only) { size_t n = 0; mi_slice_t* prev = NULL; for (mi_slice_t* x = sq->first; x != NULL && n < 4; x = x->next) { CHECK(x->prev == prev, "span queue prev links"); prev = x; if (only) *only = x; n++; } CHECK(sq->last == prev, "span queue last pointer"); return n; }
+static size_t total_queued(void) { size_t n = 0; for (size_t i = 0; i <= MI_SEGMENT_BIN_MAX; i++) n += queue_len(&STLD.spans[i], NULL); return n; }
+void h_segment_alloc_full(void) {
+  for (size_t i = 0; i <= MI_SEGMENT_BIN_MAX; i++) { STLD.spans[i].first = STLD.spans[i].last = NULL; STLD.spans[i].slice_count = MI_SLICES_PER_SEGMENT; }
+  STLD.stats = &SSTATS;
+  opt_delay = nd_long(); ASSUME(opt_delay >= -1 && opt_delay <= 100); opt_extend = 1;
+#if ZEROMEM
+  mem_zero = true;                               /* S is a zero-initialised static */
+#else
+  mem_zero = false; { mi_segment_t g; GARB = g; S.seg = GARB; }     /* recycled memory: every byte of the header arbitrary */
+#endif
+  const size_t info = (MI_SECURE > 0 ? 2 : 1);   /* info slices of this build (checked below) */
+  mi_segment_t* seg; mi_page_t* page = NULL;
+#if REQ == 0
+  seg = mi_segment_alloc(0, 0, (mi_arena_id_t)0, &STLD, NULL);
+#else
+  const size_t total = (REQ + (ALIGN ? MI_SEGMENT_SIZE - info * MI_SEGMENT_SLICE_SIZE : 0) + info * MI_SEGMENT_SLICE_SIZE + (MI_SECURE > 0 ? 2 * 4096 : 0) + MI_SEGMENT_SLICE_SIZE - 1) / MI_SEGMENT_SLICE_SIZE;   /* slices (as the code computes; compared below) */
+  reset_lo = info * MI_SEGMENT_SLICE_SIZE + sizeof(mi_block_t); reset_hi = (ALIGN ? MI_SEGMENT_SIZE : reset_lo);
+  page = mi_segment_huge_page_alloc(REQ, ALIGN, (mi_arena_id_t)0, &STLD);
+  seg = (page == NULL ? NULL : &S.seg);
+#endif
+  CHECK(n_arena_req == 1, "one request to the arena layer");
+#if ARENA_FAIL || COMMIT_FAIL_AT
+  CHECK(seg == NULL, "refused by the arena layer or the OS: no segment");
+#else
+  CHECK(seg != NULL, "nothing refused: the allocation succeeds");
+#endif
+  if (seg == NULL) {
+    CHECK(total_queued() == 0, "C07: a failed segment allocation leaves nothing in the span queues");
+    CHECK(ARENA_FAIL || commit_refused, "failure only when the arena or the OS refused");
+    CHECK(n_arena_free2 == (ARENA_FAIL ? 0 : 1), "C07/C11: memory obtained for a segment that cannot be set up is given back exactly once");
+    CHECK(STLD.count == 0 && STLD.current_size == 0, "C07: segment accounting unchanged by a failed allocation");
+#if ARENA_FAIL || COMMIT_FAIL_AT
+    WITNESS("failed");
+#endif
+    return; }
+  CHECK(n_arena_free2 == 0 && STLD.count == 1 && STLD.current_size == rq_size, "segment accounting");
+  mi_slice_t* sl = seg->slices;
+  CHECK(seg == &S.seg && seg->thread_id == 0x4242 && seg->used == (REQ == 0 ? 0 : 1) && seg->abandoned == 0 && seg->next == NULL, "fresh segment: owned by the caller, no stale header fields");
+  CHECK(seg->cookie == _mi_ptr_cookie(seg) && seg->segment_info_slices == info, "cookie and info size set");
+  CHECK(mask_subset(&seg->commit_mask, &os_committed), "C13: the commit mask of a fresh segment does not claim uncommitted memory");
+  CHECK((seg->commit_mask.mask[0] & ((1u << info) - 1)) == ((1u << info) - 1), "the info slices are committed");
+  CHECK(mi_commit_mask_is_empty(&seg->purge_mask) && seg->purge_expire == 0, "nothing scheduled for purging in a fresh segment");
+  CHECK(sl[0].slice_count == info && sl[0].slice_offset == 0 && sl[0].block_size > 0, "slice 0 heads the info span, marked in use");
+#if REQ == 0
+  CHECK(seg->kind == MI_SEGMENT_NORMAL && seg->segment_slices == MI_SLICES_PER_SEGMENT && rq_size == MI_SEGMENT_SIZE, "normal segment geometry");
+  { const size_t entries = MI_SLICES_PER_SEGMENT - (MI_SECURE > 0 ? 1 : 0); mi_slice_t* q = NULL;
+    CHECK(seg->slice_entries == entries, "usable slice entries");
+    CHECK(total_queued() == 1 && queue_len(mi_span_queue_for(entries - info, &STLD), &q) == 1 && q == &sl[info], "C01: the whole data area is one free span, queued exactly once");
+    CHECK(sl[info].slice_count == entries - info && sl[info].slice_offset == 0 && sl[info].block_size == 0, "free span header");
+    CHECK(sl[entries - 1].slice_offset == (entries - info - 1) * sizeof(mi_slice_t) && sl[entries - 1].block_size == 0, "free span trailer points back to its head"); }
+#if !(ARENA_FAIL || COMMIT_FAIL_AT)
+  WITNESS("normal");
+#endif
+#else
+  CHECK(seg->kind == MI_SEGMENT_HUGE && seg->segment_slices == total && rq_size == total * MI_SEGMENT_SLICE_SIZE, "huge segment geometry");
+  CHECK(mem_committed && mi_commit_mask_is_full(&seg->commit_mask), "C13: huge segments are committed as a whole");
+  CHECK(total_queued() == 0, "C01: a huge segment contributes no free span");
+  CHECK(page == (mi_page_t*)&sl[info] && page->slice_offset == 0 && page->slice_count == total - info - (MI_SECURE > 0 ? 1 : 0) && page->is_huge && page->is_committed, "the huge page spans all data slices");
+  CHECK(page->block_size >= REQ + (ALIGN ? MI_SEGMENT_SIZE - info * MI_SEGMENT_SLICE_SIZE : 0), "C03: block size covers the request (plus the alignment prefix)");
+  CHECK(page->used == 0 && page->free == NULL && page->local_free == NULL && page->xthread_free == 0 && page->capacity == 0 && page->next == NULL && page->prev == NULL, "C01: a fresh page carries no stale list or count fields");
+#if ALIGN
+  { uint8_t* blockp = (uint8_t*)seg + MI_SEGMENT_SIZE;       /* = align_up(page start, ALIGN) as the object base is ALIGN-aligned */
+    CHECK(_mi_segment_page_of(seg, blockp) == page, "C03/C16: the aligned block start (one segment size from the header: the extra slice entry) maps back to the huge page");
+    CHECK(n_reset2 == (seg->allow_decommit ? 1 : 0), "prefix reset when decommit is allowed"); }
+#endif
+  CHECK(_mi_segment_page_of(seg, (uint8_t*)seg + info * MI_SEGMENT_SLICE_SIZE) == page && _mi_segment_page_of(seg, (uint8_t*)seg + info * MI_SEGMENT_SLICE_SIZE + (REQ > 77 ? 77 : 0)) == page
+        && (total <= info + 1 || _mi_segment_page_of(seg, (uint8_t*)seg + (info + 1) * MI_SEGMENT_SLICE_SIZE + 77) == page), "C16: interior addresses map back to the huge page");
+#if !(ARENA_FAIL || COMMIT_FAIL_AT)
+  WITNESS("huge");
+#endif
+#endif
+}
+#endif
+
+#ifdef HARNESS_h_huge_geometry
+/* C03 (huge alignment through a dedicated segment and the extra slice entry) / C13 (prefix reset): the geometry that
+   mi_segment_alloc -> mi_segment_os_alloc requests from the arena layer for a huge page with alignment 2^k >= MI_SEGMENT_ALIGN,
+   combined with the arena contract "(p + align_offset) is a multiple of alignment" for an arbitrary base address p, leaves room
+   for the aligned block inside the mapping, keeps the block start within reach of _mi_ptr_segment / the slice table, and the
+   prefix that mi_segment_huge_page_alloc resets never overlaps the block.  Addresses are integers (no object of that size). */
+static int n_arena_req; static size_t rq_size, rq_align, rq_offset; static bool rq_commit;
+void* _mi_arena_alloc_aligned(size_t size, size_t alignment, size_t align_offset, bool commit, bool allow_large, mi_arena_id_t req_arena_id, mi_memid_t* memid) {
+  n_arena_req++; rq_size = size; rq_align = alignment; rq_offset = align_offset; rq_commit = commit; return NULL; }
+bool _mi_os_has_overcommit(void) { return nd_bool(); }
+size_t _mi_current_thread_count(void) { return nd_size() % 4; }
+void _mi_arena_free(void* p, size_t size, size_t committed, mi_memid_t memid) { }
+void _mi_segment_map_allocated_at(const mi_segment_t* segment) { }
+void _mi_segment_map_freed_at(const mi_segment_t* segment) { }
+bool _mi_os_protect(void* addr, size_t size) { return true; }
+bool _mi_os_unprotect(void* addr, size_t size) { return true; }
+bool _mi_os_reset(void* addr, size_t size) { return true; }
+void _mi_arena_segment_mark_abandoned(mi_segment_t* segment) { }
+mi_threadid_t _mi_thread_id(void) mi_attr_noexcept { return 0x4242; }
+void h_huge_geometry(void) {
+  static mi_segments_tld_t stld; static mi_page_t* hp;
+  size_t required = nd_size(); ASSUME(required >= 1 && required <= ((size_t)1 << 40));
+  size_t k = nd_range(MI_SEGMENT_SHIFT, 40);
+  size_t page_alignment = (size_t)1 << k;
+  mi_segment_t* s = mi_segment_alloc(required, page_alignment, (mi_arena_id_t)0, &stld, &hp);
+  CHECK(s == NULL && n_arena_req == 1, "one request to the arena layer");
+  CHECK(rq_align == page_alignment && rq_commit, "the page alignment is passed on; huge segments are requested committed");
+  CHECK(rq_size % MI_SEGMENT_SLICE_SIZE == 0 && rq_offset % MI_SEGMENT_ALIGN == 0, "whole slices; the alignment offset keeps the segment itself segment-aligned");
+  /* any base address the arena layer may return under its contract */
+  uintptr_t P = nd_u64(); ASSUME(P >= MI_SEGMENT_SIZE && P <= ((uintptr_t)1 << 47) && ((P + rq_offset) & (page_alignment - 1)) == 0);
+  CHECK((P & (MI_SEGMENT_ALIGN - 1)) == 0, "the segment header is segment-aligned (pointer -> segment lookup works)");
+  size_t info_slices = 0; size_t base_slices = mi_segment_calculate_slices(required, &info_slices);
+  size_t guard = (MI_SECURE > 0 ? _mi_os_page_size() : 0);
+  uintptr_t start = P + info_slices * MI_SEGMENT_SLICE_SIZE;                 /* page start of the huge span (start offset 0 for huge block sizes: C16.page_start) */
+  uintptr_t aligned_p = _mi_align_up(start, page_alignment);               /* as mi_segment_huge_page_alloc / the aligned-allocation path compute the block */
+  CHECK(aligned_p + required <= P + rq_size - guard, "C03: the aligned block of the requested size lies inside the mapped segment (before the guard page)");
+  CHECK(aligned_p - P <= MI_SEGMENT_SIZE, "C03: the block start is at most one segment size from the header");
+  CHECK((uintptr_t)_mi_ptr_segment((void*)aligned_p) == P, "C03/C16: pointer -> segment recovers the header from the aligned block start");
+  size_t idx = (aligned_p - P) >> MI_SEGMENT_SLICE_SHIFT;
+  size_t entries = (rq_size / MI_SEGMENT_SLICE_SIZE > MI_SLICES_PER_SEGMENT ? MI_SLICES_PER_SEGMENT : rq_size / MI_SEGMENT_SLICE_SIZE);
+  CHECK(idx <= entries && idx <= MI_SLICES_PER_SEGMENT, "C03: the slice entry of the block start exists (at most the extra last entry)");
+  /* prefix reset of mi_segment_huge_page_alloc: [start + sizeof(mi_block_t), aligned_p) */
+  CHECK(start + sizeof(mi_block_t) <= aligned_p || aligned_p == start, "reset range well-formed (empty when the start is already aligned)");
+  WITNESS("end");
+  if (aligned_p - P == MI_SEGMENT_SIZE) WITNESS("extra slice entry");
+  (void)base_slices;
 }
 #endif
 
